@@ -45,6 +45,16 @@ CHECKS = {
         note="Reference decoder written from the documented layout; asserts enabled; payload sizes bounded (<= 1 KiB), 4 GiB lengths only as header values.",
         design_ref="DESIGN.md section 3 C06",
     ),
+    "C19": dict(
+        engine="S",
+        technique="exhaustive input enumeration over a URI grammar with near-misses and all single-character edits of seed URIs; pairwise equality/hash check; hash-seed enumeration",
+        text="Every string of protocol x object x location from a grammar including near-misses, and every single-character insertion/substitution/deletion/"
+             "transposition at every position of six seed URIs, is given to the real parser; for every accepted string the text form must be accepted, parse to an equal "
+             "URI, be a fixed point, hash equally, survive all four serializers, the Proxy state path and register->lookup on both name-server back-ends; all pairs "
+             "of accepted URIs are compared for location-implies-inequality and equal-implies-equal-hash; tag-list URIs are re-run under several PYTHONHASHSEED values.",
+        note="Alphabet of strings is finite (ASCII punctuation, a few non-ASCII characters); resolution through a live name server is not part of this check.",
+        design_ref="DESIGN.md section 3 C19",
+    ),
 }
 
 NOT_YET = {}
